@@ -12,6 +12,7 @@ import (
 func newSessionH() *H[headers.Session] {
 	return &H[headers.Session]{
 		name: "session", kindU: 20, kindM: 21,
+		variants: sessionVariantGrammar.gen,
 		unmarshal: func(s string) (headers.Session, error) {
 			var h headers.Session
 			err := h.Unmarshal(base.HeaderValue{s})
@@ -84,6 +85,7 @@ func encRTPInfo(l *hx.L, h headers.RTPInfo) {
 func newRTPInfoH() *H[headers.RTPInfo] {
 	return &H[headers.RTPInfo]{
 		name: "rtpinfo", kindU: 30, kindM: 31,
+		variants: rtpinfoVariantGrammar.gen,
 		unmarshal: func(s string) (headers.RTPInfo, error) {
 			var h headers.RTPInfo
 			err := h.Unmarshal(base.HeaderValue{s})
